@@ -206,7 +206,7 @@ class C19(PropBase):
         else:
             code, nparams, info0 = rng.choice([11, 11, 7, 4]), 0, 0
             flags = rng.choice([0, 1, 2, 0x80, 0x80, 5, 0xfffffffa])
-        cls = rng.choice(["mem"] * 12 + ["callmem", "jmpmem", "pushmem", "popmem", "callreg", "jmpreg", "pushreg", "popreg",
+        cls = rng.choice(["mem"] * 12 + ["mem32", "callmem", "jmpmem", "pushmem", "popmem", "callreg", "jmpreg", "pushreg", "popreg",
                                          "ret", "jcc", "callimm", "jmpimm", "nop"])
         if scen == 1:
             form = rng.choice(["base", "base_index"])
@@ -230,6 +230,16 @@ class C19(PropBase):
             opc, digit, lea = rng.choice(Q_OPCODES)
             w = 1 if opc == 0xff or rng.chance(3, 4) else 0
             enc, dec = enc_instr(opc, digit, w, reg, form, base, index, scale_log, disp, rng.chance(1, 5))
+        elif cls == "mem32":
+            # 32-bit addressing (0x67): the operand registers are ebx, r9d, ...: not readable from the amd64 context, so the
+            # accesses are undetermined and the register pass skips them (ids >= 100 = no such register)
+            if form in ("abs", "rip"):
+                form = "base"
+                index = None
+            opc, digit, lea = rng.choice(Q_OPCODES)
+            enc, d0 = enc_instr(opc, digit, 1, reg, form, base, index, scale_log, disp, rng.chance(1, 5))
+            enc = bytes([0x67]) + enc
+            dec32 = (d0[0] + 100 if d0[0] >= 0 else -1, d0[1] + 100 if d0[1] >= 0 else -1, d0[2], d0[3])
         elif cls in ("callmem", "jmpmem", "pushmem"):
             digit = {"callmem": 2, "jmpmem": 4, "pushmem": 6}[cls]
             enc, dec = enc_instr(0xff, digit, rng.below(2), 0, form, base, index, scale_log, disp, rng.chance(1, 5))
@@ -376,7 +386,7 @@ class C19(PropBase):
                 tag += "_nobytes"
             else:
                 instr = planted.hex()
-                ops = [dec] if dec else []
+                ops = [dec] if dec else ([dec32] if cls == "mem32" else [])
                 decs = "D %d %d %d %d %d %d%s" % (lea, ms, imp, ipk, ipv, len(ops), "".join(" %d %d %d %d" % o for o in ops))
                 if overlap:
                     decs = "U"
